@@ -20,9 +20,7 @@ Record obs := mkObs {
 
 Inductive sobs := SNone | SSame | SFull (o : obs).
 Inductive step := SOp (o : op) | SClone (t : option (list Z)) | SAppend | SFinalize.
-(* [s_top]: what was observed of the top emitter, its Bytes() written as a difference to the Bytes() of the
-   previous record: the first [s_keep] bytes of those, followed by [o_bytes (s_top)] *)
-Record srec := mkS { s_step : step; s_panic : bool; s_keep : Z; s_top : obs; s_second : sobs }.
+Record srec := mkS { s_step : step; s_panic : bool; s_top : obs; s_second : sobs }.
 Record final := mkF {
   f_hex1 : list rline * bool; f_text1 : list rline * bool;
   f_res : fres; f_bytes : list Z;
@@ -88,11 +86,8 @@ Definition mstep (cb : bool) (s : step) (st : list em) : list em * bool :=
   | _, _ => (st, true)
   end.
 
-Definition with_bytes (b : list Z) (o : obs) : obs :=
-  mkObs b (o_len o) (o_cap o) (o_pc o) (o_flags o) (o_base o) (o_m16 o) (o_x16 o) (o_labels o).
-
-Fixpoint check_steps (cb : bool) (nl : N) (i : Z) (st : list em) (prev2 : option obs) (prevb : list Z)
-  (rs : list srec) : list em * list (Z * Z) :=
+Fixpoint check_steps (cb : bool) (nl : N) (i : Z) (st : list em) (prev2 : option obs) (rs : list srec)
+  : list em * list (Z * Z) :=
   match rs with
   | [] => (st, [])
   | r :: rest =>
@@ -100,8 +95,7 @@ Fixpoint check_steps (cb : bool) (nl : N) (i : Z) (st : list em) (prev2 : option
       let top := match st1 with e :: _ => obs_of nl e | [] => obs_of nl (new_em None false) end in
       let sec := match st1 with _ :: a :: _ => Some (obs_of nl a) | _ => None end in
       let d1 := if Bool.eqb refused (s_panic r) then [] else [1] in
-      let realb := ztake (s_keep r) prevb ++ o_bytes (s_top r) in     (* Bytes() as observed *)
-      let d2 := obs_diff top (with_bytes realb (s_top r)) in
+      let d2 := obs_diff top (s_top r) in
       let d3 := match s_second r, sec with
                 | SNone, None => []
                 | SFull o, Some m => match obs_diff m o with [] => [] | _ => [11] end
@@ -111,7 +105,7 @@ Fixpoint check_steps (cb : bool) (nl : N) (i : Z) (st : list em) (prev2 : option
                                    end
                 | _, _ => [14]
                 end in
-      let '(stf, ds) := check_steps cb nl (i + 1) st1 sec realb rest in
+      let '(stf, ds) := check_steps cb nl (i + 1) st1 sec rest in
       (stf, map (fun c => (i, c)) (d1 ++ d2 ++ d3) ++ ds)
   end.
 
@@ -149,13 +143,12 @@ Definition check_final (f : final) (e : em) : list (Z * Z) :=
         else [(-1, 23)]).
 
 Definition check_case (cb : bool) (c : case) : list (Z * Z) :=
-  let '(st, ds) := check_steps cb (c_nl c) 0 [new_em (c_target c) (c_gen c)] None [] (c_steps c) in
+  let '(st, ds) := check_steps cb (c_nl c) 0 [new_em (c_target c) (c_gen c)] None (c_steps c) in
   ds ++ match st with e :: _ => check_final (c_final c) e | [] => [(-1, 30)] end.
 
 Definition bad_cases (cb : bool) (cs : list case) : list (Z * list (Z * Z)) :=
   filter (fun x => match snd x with [] => false | _ => true end)
          (map (fun c => (c_id c, check_case cb c)) cs).
-
 (* ------------------------------------------------------------------ wire format
    Elaborating cases written as Gallina terms costs ~30 us and several KB of memory per node; a case is
    therefore shipped as a flat list of primitive 63-bit integers (one token per scalar or byte) and
@@ -222,8 +215,18 @@ Definition psobs : P sobs :=
   t <- ptok ;;
   if t =? 0 then pret SNone else if t =? 1 then pret SSame
   else if t =? 2 then (o <- pobs ;; pret (SFull o)) else pfail.
-Definition psrec : P srec :=
-  st <- pstep ;; pn <- pbool ;; kp <- ptok ;; o <- pobs ;; s2 <- psobs ;; pret (mkS st pn kp o s2).
+Definition with_bytes (b : list Z) (o : obs) : obs :=
+  mkObs b (o_len o) (o_cap o) (o_pc o) (o_flags o) (o_base o) (o_m16 o) (o_x16 o) (o_labels o).
+(* the Bytes() of the top emitter are shipped as a difference to those of the previous record (the first
+   [keep] bytes of those, then the bytes given) and re-assembled here *)
+Fixpoint psrecs (n : nat) (prevb : list Z) : P (list srec) :=
+  match n with
+  | O => pret []
+  | S m =>
+      st <- pstep ;; pn <- pbool ;; kp <- ptok ;; o <- pobs ;; s2 <- psobs ;;
+      let b := ztake kp prevb ++ o_bytes o in
+      rest <- psrecs m b ;; pret (mkS st pn (with_bytes b o) s2 :: rest)
+  end.
 Definition prline : P rline :=
   k <- pkind ;; a <- ptok ;; b <- pbytes ;; l <- pN ;; w <- pbool ;; pret (mkR k a b l w).
 Definition prender : P (list rline * bool) := ls <- plist prline ;; pn <- pbool ;; pret (ls, pn).
@@ -236,7 +239,7 @@ Definition pfinal : P final :=
   h1 <- prender ;; t1 <- prender ;; r <- pfres ;; b <- pbytes ;; h2 <- prender ;; t2 <- prender ;;
   pret (mkF h1 t1 r b h2 t2).
 Definition pcase : P case :=
-  i <- ptok ;; g <- pbool ;; tg <- ptarget ;; nl <- pN ;; ss <- plist psrec ;; f <- pfinal ;;
+  i <- ptok ;; g <- pbool ;; tg <- ptarget ;; nl <- pN ;; ns <- ptok ;; ss <- psrecs (Z.to_nat ns) [] ;; f <- pfinal ;;
   pret (mkC i g tg nl ss f).
 
 Definition decode_case (ts : list int) : option case :=
